@@ -625,6 +625,12 @@ def accepted_in_bounds(unit, data):
     run("rtosc_itr_begin", "rtosc_itr_begin", [MSG])
     if out or not isinstance(na, int):
         return out
+    # the iterator over the whole message: every step's reads (type string, payload sizes) stay inside
+    try:
+        iterator_walk_on(unit, mem, max_steps=na + 4)
+    except OutOfBytes as e:
+        out.append("the iterator (rtosc_itr_next) reads offset %s of a %d-byte buffer (%s)" % (e.offset, n, A.where(e.node) if getattr(e, "node", None) else "?"))
+        return out
     for k in range(min(na, 6)):
         ty = run("rtosc_type(%d)" % k, "rtosc_type", [MSG, k])
         r = run("rtosc_argument(%d)" % k, "rtosc_argument", [MSG, k], stop_at="extract_arg")
@@ -643,3 +649,183 @@ def accepted_in_bounds(unit, data):
                 if off + 4 + ln > n:
                     out.append("argument %d (blob) announces %d bytes at offset %d of a %d-byte buffer" % (k, ln, off + 4, n))
     return out
+
+
+# ---------------------------------------------------------------------------------------------------------------------
+# the argument iterator on real message bytes: which tag, decoded at which offset, step by step
+
+def iterator_walk(unit, data, max_steps=40):
+    return iterator_walk_on(unit, _Bytes(data), max_steps)
+
+
+def iterator_walk_on(unit, mem, max_steps=40):
+    """[(tag, offset handed to the decoder)] for rtosc_itr_begin / rtosc_itr_end / rtosc_itr_next evaluated on the bytes.
+    The iterator's members are the evaluator's member slots; a struct returned by value (the decoder's result) is carried
+    as its member slots, so code that reads the decoded value back (`result.val.b.len`) is followed."""
+    fb, fn_, fe = unit.function("rtosc_itr_begin"), unit.function("rtosc_itr_next"), unit.function("rtosc_itr_end")
+    decoded = []
+
+    def run_fn(f, env, want_struct=False):
+        """evaluate a function body in its own frame -> (returned value, final env)"""
+        holder = {}
+
+        def cstr(a, n):
+            out = []
+            for i in range(600):
+                c = mem.deref(a + i, n)
+                if not c:
+                    return "".join(out)
+                out.append(chr(c))
+            raise FD.Unknown("unterminated string", n)
+
+        def hook(n, ev):
+            k = n.get("kind")
+            ks = A.kids(n)
+            if k == "StringLiteral":
+                return A.string_literal(n)
+            if k == "ImplicitCastExpr" and n.get("castKind") == "ArrayToPointerDecay" and ks and A.string_literal(ks[0]) is not None:
+                return A.string_literal(ks[0])
+            if k == "InitListExpr" and not (A.qtype(n) or "").endswith("]"):
+                return ("object", "zero-initialised")
+            if k == "MemberExpr":
+                key = "member:" + A.src(n).replace(" ", "")
+                if key in ev.env:
+                    return NotImplemented
+                # a member of a struct that was assigned as a whole
+                pre = key
+                while "." in pre[len("member:"):] or "->" in pre[len("member:"):]:
+                    cut = max(pre.rfind("."), pre.rfind("->"))
+                    pre, suffix = pre[:cut], key[cut:]
+                    v = ev.env.get(pre)
+                    if isinstance(v, tuple) and v[0] == "struct":
+                        if suffix in v[1]:
+                            return v[1][suffix]
+                        return 0          # a member the callee never wrote: zero-initialised there
+                return NotImplemented
+            if k == "DeclRefExpr" and (n.get("referencedDecl") or {}).get("id") not in ev.env and FD.ctype(A.qtype(n))[0] not in ("int", "ptr", "float") \
+                    and not (A.qtype(n) or "").endswith("]") and (n.get("referencedDecl") or {}).get("kind") == "VarDecl":
+                return ("object", (n.get("referencedDecl") or {}).get("name"))
+            if k == "CallExpr" and A.callee_name(n) in ("__assert_fail",):
+                return 0
+            return NotImplemented
+
+        def call(nm, vals, n):
+            if nm in ("strlen", "__builtin_strlen"):
+                return len(cstr(vals[0], n)) if isinstance(vals[0], int) else len(vals[0])
+            if nm in ("strspn", "strcspn"):
+                s_ = cstr(vals[0], n) if isinstance(vals[0], int) else vals[0]
+                st = cstr(vals[1], n) if isinstance(vals[1], int) else vals[1]
+                i = 0
+                while i < len(s_) and ((s_[i] in st) == (nm == "strspn")):
+                    i += 1
+                return i
+            if nm in ("strchr", "__builtin_strchr"):
+                if isinstance(vals[0], str):
+                    return 1 if vals[1] and chr(vals[1] & 0xff) in vals[0] else 0
+                s_ = cstr(vals[0], n)
+                i = s_.find(chr(vals[1] & 0xff)) if vals[1] else len(s_)
+                return vals[0] + i if i >= 0 else 0
+            if nm in ("memcpy", "memmove", "__builtin_memcpy", "__builtin___memcpy_chk"):
+                # a copy out of the message into a local result: the source bytes are read (and must exist)
+                if isinstance(vals[1], int) and vals[1] >= MSG:
+                    for i in range(vals[2]):
+                        mem.deref(vals[1] + i, n)
+                if isinstance(vals[0], int) and vals[0] >= MSG:
+                    raise FD.Unknown("copy into the message", n)
+                return vals[0]
+            if nm in ("memset", "__builtin_memset"):
+                if isinstance(vals[0], int) and vals[0] >= MSG:
+                    raise FD.Unknown("memset of the message", n)
+                return vals[0]
+            fs = [f_ for f_ in unit.functions.get(nm, []) if unit.body(f_) is not None]
+            if len(fs) != 1:
+                raise FD.Unknown("call to %s" % nm, n)
+            if nm == "extract_arg":
+                decoded.append((vals[1], vals[0]))
+            rt = (A.stype(fs[0]) or "").split("(")[0]
+            if FD.ctype(rt)[0] in ("int", "ptr", "float") or rt.strip() == "void":
+                return holder["ev"].call_function(unit, fs[0], vals)
+            # a struct returned by value: its member slots come back with it
+            v, env2 = run_fn(fs[0], {p_["id"]: a_ for p_, a_ in zip(unit.params(fs[0]), vals)})
+            if isinstance(v, tuple) and v[0] == "object":
+                pre = "member:" + str(v[1])
+                return ("struct", {k_[len(pre):]: x_ for k_, x_ in env2.items() if isinstance(k_, str) and k_.startswith(pre)})
+            return v
+        env = dict(env)
+        # `T result = {0}`: every member of a zero-initialised local that the function mentions starts as 0
+        for d_ in A.walk(unit.body(f)):
+            if d_.get("kind") == "VarDecl" and A.kids(d_) and A.strip_casts(A.kids(d_)[-1]).get("kind") == "InitListExpr" and not (A.qtype(d_) or "").endswith("]"):
+                nm_ = d_.get("name")
+                for y_ in A.walk(unit.body(f)):
+                    if y_.get("kind") == "MemberExpr":
+                        t_ = A.src(y_).replace(" ", "")
+                        if t_.startswith(nm_ + "."):
+                            env.setdefault("member:" + t_, 0)
+        def store(a, v, n):
+            if isinstance(a, int) and a >= MSG:
+                raise FD.Unknown("store into the message", n)
+            # (an element of an array member of a local result, e.g. result.m[k]: not looked at)
+        ev = FD.Eval(env=env, deref=mem.deref, store=store, node_hook=hook, call=call, max_steps=8000)
+        holder["ev"] = ev
+        try:
+            ev.run(unit.body(f))
+            return None, ev.env
+        except FD._Return as r:
+            return r.v, ev.env
+
+    def members(env, suffix):
+        return [v for k, v in env.items() if isinstance(k, str) and k.startswith("member:") and k.endswith(suffix)]
+    _, e0 = run_fn(fb, {unit.params(fb)[0]["id"]: MSG})
+    tp, vp = members(e0, "type_pos"), members(e0, "value_pos")
+    if len(tp) != 1 or len(vp) != 1:
+        raise FD.Unknown("rtosc_itr_begin: the iterator's cursors were not assigned exactly once", fb)
+    tpos, vpos = tp[0], vp[0]
+    pn, pe = unit.params(fn_)[0].get("name"), unit.params(fe)[0].get("name")
+    out = []
+    for _ in range(max_steps):
+        rv, _e = run_fn(fe, {"member:%s.type_pos" % pe: tpos, "member:%s.value_pos" % pe: vpos})
+        if rv:
+            return out
+        del decoded[:]
+        _, e1 = run_fn(fn_, {unit.params(fn_)[0]["id"]: 8192, "member:%s->type_pos" % pn: tpos, "member:%s->value_pos" % pn: vpos})
+        ty = [v for k, v in e1.items() if isinstance(k, str) and k.startswith("member:") and k.endswith(".type") and "->" not in k]
+        if len(ty) != 1 or not isinstance(ty[0], int):
+            raise FD.Unknown("rtosc_itr_next: the result's type was not assigned exactly once", fn_)
+        where = [p_ for t_, p_ in decoded if t_ == ty[0]]
+        out.append((chr(ty[0]) if 0 < ty[0] < 128 else "?", (where[0] - MSG) if where and isinstance(where[0], int) else None))
+        tpos, vpos = e1["member:%s->type_pos" % pn], e1["member:%s->value_pos" % pn]
+    raise FD.Unknown("the iterator does not reach its end", fn_)
+
+
+def default_values(types):
+    """one value per value-carrying tag of a type string (for probe messages made from type strings alone)"""
+    out = []
+    for k, t in enumerate(types):
+        if t in "ifcr":
+            out.append(0x01020300 + k)
+        elif t in "htd":
+            out.append(0x0102030405060700 + k)
+        elif t in "sS":
+            out.append("s%d" % k)
+        elif t == "b":
+            out.append((k % 5, [0xb0 + j for j in range(k % 5)]))
+        elif t == "m":
+            out.append([1, 2, 3, k])
+    return out
+
+
+def iterator_checks(unit, address, types, values):
+    """-> mismatch descriptions: the iterator must decode every argument of the probe message with its tag at its offset"""
+    data, slots = layout(address, types, values)
+    try:
+        got = iterator_walk(unit, data)
+    except OutOfBytes as e:
+        return ["the iterator reads offset %s of the %d-byte message (%s)" % (e.offset, len(data), A.where(e.node) if getattr(e, "node", None) else "?")]
+    bad = []
+    if [t for t, _ in got] != [t for t, _ in slots]:
+        bad.append("the iterator yields the tags %s, the message has %s" % ("".join(t for t, _ in got), "".join(t for t, _ in slots)))
+        return bad
+    for k, ((t, off), (t2, want)) in enumerate(zip(got, slots)):
+        if want is not None and off != want:
+            bad.append("argument %d ('%s') is decoded at offset %r, it lies at %d" % (k, t, off, want))
+    return bad
